@@ -9,12 +9,12 @@ from .kernel import HarnessError
 from .space import ops
 
 
-def drive_pack(cases, make_calls, transport="bundled", stats=None, naming="operationId"):
+def drive_pack(cases, make_calls, transport="bundled", stats=None, naming="operationId", refs=False):
     """cases: op cases; make_calls(case) -> [call spec without prop/method/id]
     returns list aligned with cases: {"status": "ok"|"rejected"|"unimportable", "records": [...], "error": str}"""
     stats = stats if stats is not None else {}
     stats["generations"] = stats.get("generations", 0) + 1
-    doc, meta = ops.build_doc(cases)
+    doc, meta = ops.build_doc(cases, refs=refs)
     with sandbox.scratch() as d:
         root = os.path.join(d, "proj")
         files, err = sandbox.generate(doc, root, naming=naming)
@@ -22,7 +22,7 @@ def drive_pack(cases, make_calls, transport="bundled", stats=None, naming="opera
             if len(cases) == 1:
                 return [{"status": "rejected", "records": [], "error": f"{type(err).__name__}: {err}"[:300]}]
             mid = len(cases) // 2
-            return drive_pack(cases[:mid], make_calls, transport, stats, naming) + drive_pack(cases[mid:], make_calls, transport, stats, naming)
+            return drive_pack(cases[:mid], make_calls, transport, stats, naming, refs) + drive_pack(cases[mid:], make_calls, transport, stats, naming, refs)
         calls = []
         for i, c in enumerate(cases):
             for j, spec in enumerate(make_calls(c)):
@@ -39,7 +39,7 @@ def drive_pack(cases, make_calls, transport="bundled", stats=None, naming="opera
         if len(cases) == 1:
             return [{"status": "unimportable", "records": [], "error": res["errors"][0]["raw"]}]
         mid = len(cases) // 2
-        return drive_pack(cases[:mid], make_calls, transport, stats, naming) + drive_pack(cases[mid:], make_calls, transport, stats, naming)
+        return drive_pack(cases[:mid], make_calls, transport, stats, naming, refs) + drive_pack(cases[mid:], make_calls, transport, stats, naming, refs)
     out = [{"status": "ok", "records": []} for _ in cases]
     for rec in res["calls"]:
         i, j = rec["id"]
